@@ -55,7 +55,7 @@ var schemaDescTypes = []proto.Message{
 
 // registered files whose descriptors serve as real-world (large, deeply nested, proto2 optional everywhere) values
 var schemaRealFiles = []protoreflect.FileDescriptor{
-	descriptorpb.File_google_protobuf_descriptor_proto, structpb.File_google_protobuf_struct_proto, c16pb.File_verif_c16_events_proto,
+	descriptorpb.File_google_protobuf_descriptor_proto, c16pb.File_verif_c16_events_proto, structpb.File_google_protobuf_struct_proto,
 	c16pb.File_verif_c16_legacy_proto, pluginpb.File_google_protobuf_compiler_plugin_proto, typepb.File_google_protobuf_type_proto,
 }
 
@@ -196,9 +196,12 @@ func genFromRicher(r *vlib.Rand) val {
 }
 
 // genRealDescriptor: the FileDescriptorProto of a registered .proto file, in 1 of 2 with unknown fields somewhere in its tree.
-func genRealDescriptor(r *vlib.Rand) val {
+func genRealDescriptor(r *vlib.Rand, big bool) val {
 	g := newPgen(r)
-	fd := schemaRealFiles[r.Intn(len(schemaRealFiles))]
+	fd := schemaRealFiles[2+r.Intn(len(schemaRealFiles)-2)]
+	if big {
+		fd = schemaRealFiles[r.Intn(2)] // descriptor.proto (about 10 KiB, 600 nodes), events.proto
+	}
 	m := protodesc.ToFileDescriptorProto(fd)
 	var ns []protoreflect.Message
 	msgNodes(m.ProtoReflect(), &ns)
@@ -211,6 +214,22 @@ func genRealDescriptor(r *vlib.Rand) val {
 	return wrapSchemaVal(g, m, "descriptor of "+fd.Path())
 }
 
+// bigBytes: n bytes made of a random 4 KiB block repeated, with random bytes sprinkled in (drawing megabytes byte by byte is slow).
+func bigBytes(r *vlib.Rand, n int) []byte {
+	if n <= 8192 {
+		return r.Bytes(n)
+	}
+	block := r.Bytes(4096)
+	b := make([]byte, 0, n)
+	for len(b) < n {
+		b = append(b, block[:min(len(block), n-len(b))]...)
+	}
+	for i := 0; i < 64; i++ {
+		b[r.Intn(n)] = byte(r.Uint64())
+	}
+	return b
+}
+
 // genLargeSchemaVal: messages of 100 KiB .. 2 MiB (rarely 8-12 MiB) in different shapes.
 func genLargeSchemaVal(r *vlib.Rand) val {
 	g := newPgen(r)
@@ -218,7 +237,7 @@ func genLargeSchemaVal(r *vlib.Rand) val {
 	ev := &c16pb.Event{Id: g.str()}
 	size := []int{100 << 10, 300 << 10, 1 << 20, 2 << 20}[r.Intn(4)]
 	k := r.Intn(6)
-	if r.Chance(0.1) && (k == 0 || k == 4) {
+	if r.Chance(0.04) && (k == 0 || k == 4) {
 		size = r.Range(8, 12) << 20
 	}
 	if k >= 1 && k <= 3 && size > 300<<10 {
@@ -228,10 +247,10 @@ func genLargeSchemaVal(r *vlib.Rand) val {
 	switch k {
 	case 0:
 		how = "one bytes field"
-		ev.Data = r.Bytes(size)
+		ev.Data = bigBytes(r, size)
 	case 1:
 		how = "many list elements"
-		for n := min(size/24, 3000); n > 0; n-- {
+		for n := min(size/24, 1000); n > 0; n-- {
 			ev.Rl = append(ev.Rl, &c16pb.Leaf{Name: "leaf", N: int64(n), Note: proto.String("")})
 			ev.Ri = append(ev.Ri, int64(n))
 		}
@@ -243,7 +262,7 @@ func genLargeSchemaVal(r *vlib.Rand) val {
 		}
 		ev.Msi = map[int32]int64{}
 		ev.Mss = map[string]string{}
-		for n := min(size/32, 1500); n > 0; n-- {
+		for n := min(size/32, 500); n > 0; n-- {
 			ev.Msi[int32(n)] = 0
 			ev.Mss[fmt.Sprint("key-", n)] = ""
 		}
@@ -252,8 +271,8 @@ func genLargeSchemaVal(r *vlib.Rand) val {
 	case 3:
 		how = "deep chain"
 		cur := ev
-		for n := 400; n > 0; n-- {
-			next := &c16pb.Event{Id: "deep", Data: r.Bytes(size / 400)}
+		for n := 150; n > 0; n-- {
+			next := &c16pb.Event{Id: "deep", Data: bigBytes(r, size/150)}
 			if n%2 == 0 {
 				cur.Child = next
 			} else {
@@ -266,7 +285,7 @@ func genLargeSchemaVal(r *vlib.Rand) val {
 		how = "large unknown field"
 		var raw []byte
 		raw = protowire.AppendTag(raw, 3000, protowire.BytesType)
-		raw = protowire.AppendBytes(raw, r.Bytes(size))
+		raw = protowire.AppendBytes(raw, bigBytes(r, size))
 		ev.ProtoReflect().SetUnknown(raw)
 	default:
 		how = "many unknown fields"
@@ -313,7 +332,15 @@ func (sg *schemaGen) gen(r *vlib.Rand) val {
 		v.pst.armSweep = 1
 		return v
 	}
-	switch k := r.Intn(64); {
+	switch k := r.Intn(128); {
+	case k == 127:
+		return genLargeSchemaVal(r) // about one value in three cases
+	case k == 126:
+		return genRealDescriptor(r, true)
+	case k >= 122:
+		return genRealDescriptor(r, false)
+	}
+	switch k := r.Intn(58); {
 	case k < 20:
 		return genSchemaOfType(r, &c16pb.Event{}, 3)
 	case k < 24:
@@ -324,12 +351,8 @@ func (sg *schemaGen) gen(r *vlib.Rand) val {
 		return genFromRicher(r)
 	case k < 52:
 		return genSchemaOfType(r, schemaWKTs[r.Intn(len(schemaWKTs))], 3)
-	case k < 58:
-		return genSchemaOfType(r, schemaDescTypes[r.Intn(len(schemaDescTypes))], 3)
-	case k < 63:
-		return genRealDescriptor(r)
 	default:
-		return genLargeSchemaVal(r) // about one value in two cases
+		return genSchemaOfType(r, schemaDescTypes[r.Intn(len(schemaDescTypes))], 3)
 	}
 }
 
